@@ -760,7 +760,10 @@ def generate(bdir=None, repo=None):
     flt = [p for k, p in sites.items() if k[1] == "flt_load" and p["kind"] == "dirBase"]
     out.append("/-- does flt_load test the length of dirname/basename before it formats the companion name into its buffer? -/")
     out.append("def fltLengthChecked : Bool := %s" % ("true" if flt and all(p["lenGuard"] for p in flt) else "false"))
-    out.append("def fltBufSize : Nat := %d\n" % (flt[0]["buf"] if flt else 1024))
+    out.append("def fltBufSize : Nat := %d" % (flt[0]["buf"] if flt else 1024))
+    mfp = [p for k, p in sites.items() if k[1] == "mfp_load" and p["kind"] == "dirBase"]
+    out.append("/-- size of mfp_load's smp_filename buffer (XMP_MAXPATH) -/")
+    out.append("def mfpBufSize : Nat := %d\n" % (mfp[0]["buf"] if mfp and mfp[0]["buf"] else 4096))
     out.append("/-- number of translation units and function bodies examined -/")
     out.append("def unitsExamined : Nat := %d" % len(units))
     out.append("def functionsExamined : Nat := %d\n" % len(an.fns))
